@@ -2000,6 +2000,18 @@ def cli_e2e(ctx, pid):
             for l in (log.read_text().splitlines() if log.exists() else []):
                 try: os.kill(int(l.split()[1]), 9)
                 except Exception: pass
+    def startup_long_debounce():
+        """the start-up run does not wait for the debounce window: the start-up event is urgent"""
+        d, log = setup("startup-debounce")
+        p = launch(d, ["--debounce=4s"], f'echo "START $$" >> {log}; sleep 20')
+        try:
+            t = wait_line(log, "START", 2.0)
+            return [] if t is not None else ["with --debounce=4s the command had not been started 2 s after start-up: the first run waited for the debounce window (the start-up run happens at start-up unless postponed)"]
+        finally:
+            finish(p)
+            for l in (log.read_text().splitlines() if log.exists() else []):
+                try: os.kill(int(l.split()[1]), 9)
+                except Exception: pass
     def quit_on(signame, ignoring):
         d, log = setup(f"quit-{signame}-{'ignoring' if ignoring else 'exiting'}")
         script = (f'trap "" TERM; echo "START $$" >> {log}; while :; do sleep 0.1; done') if ignoring else (f'trap "exit 0" TERM; echo "START $$" >> {log}; while :; do sleep 0.1; done')
@@ -2043,7 +2055,7 @@ def cli_e2e(ctx, pid):
             for l in (log.read_text().splitlines() if log.exists() else []):
                 try: os.kill(int(l.split()[1]), 9)
                 except Exception: pass
-    jobs = ([("start-up run", lambda: startup(False)), ("--postpone", lambda: startup(True))] if pid == "C05" else
+    jobs = ([("start-up run", lambda: startup(False)), ("--postpone", lambda: startup(True)), ("start-up run with a long debounce", startup_long_debounce)] if pid == "C05" else
             [(f"{sn} {'ignored' if ig else 'honoured'}", (lambda sn=sn, ig=ig: quit_on(sn, ig))) for sn in ("SIGINT", "SIGTERM") for ig in (False, True)] +
             [(f"{sn} inside a debounce window", (lambda sn=sn: quit_in_window(sn))) for sn in ("SIGINT", "SIGTERM")])
     with ThreadPoolExecutor(len(jobs)) as ex: results = list(ex.map(lambda j: j[1](), jobs))
